@@ -210,6 +210,47 @@ impl WriteQueue {
     }
 }
 
+/// Verification hook (add-only, `--cfg sozu_verif`): drives the private
+/// [`WriteQueue`] in-process so an out-of-tree harness can compare it with a
+/// reference model. Never compiled into a normal build.
+#[cfg(sozu_verif)]
+pub mod verif {
+    use std::net::SocketAddr;
+
+    use super::{SendOutcome, WriteQueue};
+
+    /// A [`WriteQueue`] with its private API re-exposed.
+    pub struct Wq(WriteQueue);
+
+    impl Wq {
+        pub fn new(cap: usize) -> Self {
+            Wq(WriteQueue::new(cap))
+        }
+        pub fn push(&mut self, dst: SocketAddr, payload: Vec<u8>) -> bool {
+            self.0.push(dst, payload)
+        }
+        pub fn is_empty(&self) -> bool {
+            self.0.is_empty()
+        }
+        /// Drain with scripted send outcomes (`0` sent, `1` would block, anything
+        /// else a hard error; an exhausted script means sent). Returns whether the
+        /// queue is now empty and the datagrams that were sent, in order.
+        pub fn drain(&mut self, outcomes: &[u8]) -> (bool, Vec<(SocketAddr, Vec<u8>)>) {
+            let mut script = outcomes.iter().copied();
+            let mut sent = Vec::new();
+            let emptied = self.0.drain(|dst, payload| match script.next().unwrap_or(0) {
+                0 => {
+                    sent.push((*dst, payload.to_vec()));
+                    SendOutcome::Sent
+                }
+                1 => SendOutcome::WouldBlock,
+                _ => SendOutcome::Dropped,
+            });
+            (emptied, sent)
+        }
+    }
+}
+
 /// One UDP listener: a single `mio::net::UdpSocket` plus its routing config.
 /// Unlike a TCP listener there is no accept loop — a readable event is a batch
 /// of datagrams the session drains to `WouldBlock`.
